@@ -33,7 +33,6 @@ class Schema:
 
     def __init__(self, cls, **fields):
         self.cls = cls
-        self.immutable = {f for f, k in fields.items() if k.endswith("!")}     # assigned only by __init__
         alloc = fields.pop("_alloc", None)
         self.immutable = {f for f, k in fields.items() if k.endswith("!")}
         self.fields = {f: k.rstrip("!") for f, k in fields.items()}
@@ -82,6 +81,11 @@ def wrap(kind, t, owner=None):
         return sym.mkint(t)
     if kind == "bool":
         return mkbool(t)
+    if kind == "obool":
+        p = cur()
+        if p.branch(t == -1):
+            return None
+        return bool(p.branch(t == 1))
     if kind.startswith("ref:") or kind.startswith("oref:"):
         cname = kind.split(":", 1)[1]
         cls = next(c for c in SCHEMAS if c.__name__ == cname)
@@ -111,6 +115,12 @@ def unwrap(kind, v):
         return zint(v)
     if kind == "bool":
         return sym.zbool(v)
+    if kind == "obool":                      # None / False / True as -1 / 0 / 1
+        if v is None:
+            return z3.IntVal(-1)
+        if isinstance(v, bool):
+            return z3.IntVal(1 if v else 0)
+        return z3.If(sym.zbool(v), z3.IntVal(1), z3.IntVal(0))
     if kind.startswith("ref:") or kind.startswith("oref:"):
         if v is None:
             return z3.IntVal(NONE_REF)
